@@ -12,6 +12,16 @@ NOTE = ("Trusted base: python ast; the rexsa engine (terms/symeval/flow); the re
         "Nothing in /repo is imported or executed.")
 
 CLAIMS = {
+    "C01": dict(
+        technique="who-may-write analysis of the step rng, sibling comparison of the two runtimes' step protocol, role (units-of-measure) typing of field-to-field copies along the record->graph->window->timings->input chain",
+        text="The equivalence of the two runtimes is NOT decided. Decided are structural necessary conditions: only graph initialisation constructs or replaces a "
+             "step rng and both runtimes carry rng/state/params unchanged into the step; both replace exactly seq, ts, inputs (+ eps) from the schedule and "
+             "increment seq by 1 on every stored result (async_step, _run_node, supervisor update, override); EpisodeRecord.to_graph, apply_window "
+             "(Window.ts_sent <- sender ts_end[seq_out], window of step k = last with seq_in <= k, length = window + trainable extension), to_timings "
+             "(same field, one slot index, one fill index) and InputState.from_outputs are role-preserving copies; the compiled payload lookup uses the "
+             "writer's ring index; slots of a kind run in generation order; the offline and online ring shifts agree. Not decided: that equal inputs give "
+             "equal outputs, float equality, supergraph placement.",
+        ref="§5 C01"),
     "C02": dict(
         technique="thread-affinity (executor confinement) analysis, event-queue discipline (FIFO/SPSC/hand-off order/guarded joins), wall-clock taint under the simulated-clock specialisation, provenance of delay samplers, API call-sequence agreement",
         text="Thread schedules are not enumerated. Decided are the structural reasons why the schedule cannot matter: every state-touching wrapper "
@@ -62,6 +72,49 @@ CLAIMS = {
              "that the value handed on is the result of that one call and carries the tick's sequence number; that the supervisor's wrapper "
              "is redirected to the synchronizer, which never runs the step. Not decided: XLA duplicating/eliminating effects, vmapped execution.",
         ref="§5 C06"),
+    "C07": dict(
+        technique="enum/branch exhaustiveness, ordering-abstraction tables of the edge / attachment / window-selection predicates, role typing of the schedule fill, ordering of generation execution",
+        text="The partitioning itself is external (supergraph library, not analysed). Decided is what rex does around it: every Supergraph member has a branch "
+             "defining S, the initial mapping and the monomorphisms, anything else raises, prune=False goes through to_connected_graph, growing and "
+             "evaluating use the same graphs; to_networkx_graph skips padded vertices / unsent or unreceived messages, adds kind_(seq-1)->kind_seq for "
+             "seq > 0 and sender_seq_out->receiver_seq_in; non-ancestors are attached iff ts_end <= supervisor ts_start with the two queues sorted by "
+             "ts_start / ts_end; every to_timings copy is slot.F[eps, partition] = vertex.F[eps, seq], entries beyond the horizon skipped, templates "
+             "run=False / seq=-1; generations[:-1] run in ascending order, slots of a kind stacked in generation order, the supervisor input update "
+             "follows; apply_window semantics as in C01. Not decided: that the monomorphism covers every vertex once.",
+        ref="§5 C07"),
+    "C08": dict(
+        technique="index-map agreement between the single writer and all readers of the ring buffers (provenance of index expressions), who-may-write, ordering-abstraction table of the admissibility check",
+        text="Decides: update_output stores at seq % size(buffer) with size = leading dimension; every read of an output buffer by sequence number "
+             "(_update_inputs, the no-op read of _run_generation) applies the same map with the size of the same buffer, on the producer's buffer with "
+             "the producer's window; the one unmapped read (supervisor no-op value) is only selected under cond(step == 0); buffers are written only "
+             "by update_output / replace_buffer, at the slot's own sequence number, once per generation after all its slots have read; the user size is "
+             "rejected iff smaller than the computed minimum; minimum sizes aggregate over every reader of a producer; allocation is max(sizes) + "
+             "extra_padding copies of init_output; default windows hold init_output. Not decided: the arithmetic of get_buffer_sizes itself.",
+        ref="§5 C08"),
+    "C09": dict(
+        technique="effect (purity) analysis of the compiled API cone, API call-sequence agreement, must-pass-through of the clip on every index use, provenance of user params",
+        text="Decides: no function of the compiled API cone (32 functions) writes through self / a parameter / a free variable / a global or performs I/O "
+             "outside raise paths; run/reset/step compose run_until_supervisor and run_supervisor as specified; rollout calls run exactly once per "
+             "iteration, max_steps times from 0, both modes from the same clipped state; an override enters the same update as the supervisor's own "
+             "result; replace_eps / replace_step store jnp.clip(x, 0, max-1) and every index use of step/eps goes through them; init reads user params "
+             "first and passes starting_step / starting_eps on unmodified. Not decided: bitwise equality of jit / vmap vs eager.",
+        ref="§5 C09"),
+    "C13": dict(
+        technique="same-origin provenance of every recorded field, non-interference (taint from record settings/state to execution sinks), index agreement of record write-back",
+        text="Decides: in both runtimes every recorded field is a projection of the very StepState handed to the step or of that call's result (incl. "
+             "delay == ts_end - ts_start in both clock branches, header ts == ts_end, adjusted ts under the wall clock), the next step starts from the "
+             "returned state; nothing derived from record settings / record state reaches a queue operation, _submit, step argument, buffer or state "
+             "update; record templates are -1 filled, rows are written at the slot's sequence number, a masked slot writes back the row read at that "
+             "index; step records stop at max_records. Not decided: dtype/shape fidelity.",
+        ref="§5 C13"),
+    "C14": dict(
+        technique="role typing of conversion projections, sentinel table agreement (writer/reader of the -1 padding), leafwise indexing, set-membership guards of filter",
+        text="Decides: EpisodeRecord.to_graph and WindowedGraph.to_graph copy field to field and cover every node, edges keyed (sender, receiver); "
+             "Graph.stack / ExperimentRecord.stack pad at the end with -1 using host numpy, to_networkx_graph skips exactly the -1 entries; __getitem__ "
+             "of Graph / Window / WindowedGraph / EpisodeRecord / InputState index every leaf; filter inserts a connection only if its sender is in "
+             "`nodes` (both branches), drops exactly the unselected vertices and the edges outside the connection set, on copies. Not decided: ragged "
+             "padding arithmetic.",
+        ref="§5 C14"),
     "C16": dict(
         technique="provenance dataflow from parameters to attributes (A4), writer/reader table agreement (A8), normal-form comparison of the phase recurrence",
         text="Decides: set_delay makes each given parameter the new attribute value and keeps omitted ones; constructors store their parameters; "
